@@ -100,6 +100,27 @@ def run(tier, seed):
       for k in ks:
         jobs.append({'prefix': seq, 'rpc': rpc, 'k': k, 'before': before, 'after': after, 'events': events, 'outcome': out})
 
+    # ---- one worker on two studies with different numbers of earlier operations: after the restart it continues on both (whatever
+    # the server keeps in memory about a worker is gone, what it keeps on file is per study)
+    for bi in range(1 if tier == 'quick' else 4):
+      seq = [('CreateStudy', 1, 1, False, 'SS_ACTIVE', [(1, True)]), ('CreateStudy', 1, 2, False, 'SS_ACTIVE', [(1, True)]),
+             ('SuggestTrials', 1, 1, 2, 1, ('deliver', [r.randrange(100)], [], [])), ('CompleteTrial', 1, 1, 1, [(1, 1)], False)]
+      for j_ in range(1, 4):
+        seq += [('SuggestTrials', 1, 2, 2, 1, ('deliver', [r.randrange(100)], [], [])), ('CompleteTrial', 1, 2, j_, [(1, 1)], False)]
+      rpc = r.choice([('SuggestTrials', 1, 1, 3, 1, ('deliver', [r.randrange(100)], [], [])), ('UpdateMetadata', 1, 2, [('', 'k', 0, 'w')], [])])
+      steps, before, serv = svc.run_sequence('sqlmem', seq, recycle=True)
+      out = svc.apply_rpc(serv, serv.default_pythia_service._policy_factory.h, rpc)
+      after = svc.snapshot(serv)
+      d0 = tempfile.mkdtemp(dir=scratch)
+      rc, so, se = child(d0, {'prefix': seq, 'rpc': rpc, 'k': 0})
+      shutil.rmtree(d0, ignore_errors=True)
+      if rc != 0:
+        raise RuntimeError('crash child failed: %s' % se)
+      events = json.loads(so.strip().splitlines()[-1])['events']
+      rep.count('one_worker_two_studies_' + rpc[0])
+      for k in sorted({1, events, events + 1}):
+        jobs.append({'prefix': seq, 'rpc': rpc, 'k': k, 'before': before, 'after': after, 'events': events, 'outcome': out})
+
     # ---- large transactions: one call that rewrites many pages (a study with many fat trials deleted / annotated in one
     # transaction).  Together with the tiny page cache of the crash child the dirty pages reach the database file before the
     # COMMIT, so only a rollback journal that survives the process can undo them.
@@ -193,9 +214,12 @@ def run(tier, seed):
           rep.violation('stored records not readable after a crash and one more call: %r' % (e,), dict(obj, study=key))
           break
       # (iv) clients can continue: a worker without unfinished operation suggests and completes
-      for key, n in svcmon.nodes_of(rec).items():
+      probe_nodes = sorted(svcmon.nodes_of(rec).items(), key=lambda kn: (sum(1 for x in kn[1]['ops'] if x['client'] == 2), kn[0]))
+      for pi_, (key, n) in enumerate(probe_nodes):
         if n['study']['state'] not in ('SS_ACTIVE', 'SS_UNSPEC'):
           continue
+        if pi_ >= 3:
+          break
         for c in (3, rpc[3] if rpc[0] == 'SuggestTrials' else 2):
           o = svc.apply_rpc(serv, holder, ('SuggestTrials', key[0], key[1], c, 1, ('deliver', [11], [], [])))
           stuck = any(x['client'] == c and not x['done'] for x in n['ops'])
@@ -212,7 +236,6 @@ def run(tier, seed):
             if o2[0] != 'Done':
               concrete = True
               rep.violation('after restart a suggested trial cannot be completed', dict(obj, got=jsonable(o2)))
-        break
       # model: recovered state = state after some prefix of the RPC's datastore calls
       pre = glist_pairs(job['prefix'])
       cases.append('(%s, (%s, %s), %s)' % (pre, svc.g_rpc(rpc), oracle_of(rpc), svc.g_snapshot(rec_recovered)))
